@@ -346,3 +346,48 @@ def run_history(ck, case, op_digest, inputs_fp=None, check="history"):
                     "by step %d (%s)" % (i + 1, name))
         outs.append(got)
     return digest(*outs)
+
+
+def pair_ladder(ck, names, fn, check, tol=1e-9, timeout=600):
+    """fn(name) -> list of floats.  Every operation alone in a pristine
+    interpreter (forked from the caller), then every ordered pair (a, b), a
+    = b included, and the whole ladder up and down, each in its own fork:
+    the values of each step must equal those of the same operation alone
+    (relative to its largest value).  Returns a fingerprint."""
+    import numpy as np
+    refs = {}
+    for n in names:
+        st, val = fork_call(fn, n, timeout=timeout)
+        refs[n] = np.array(val, dtype=float) if st == "ok" else None
+        ck.true(check + ":alone", st == "ok", "%s alone: %s %r" %
+                (n, st, val if st != "ok" else ""))
+
+    def walk(seq):
+        return [fn(n) for n in seq]
+    seqs = [[a, b] for a in names for b in names]
+    seqs += [list(names), list(reversed(names)),
+             list(names) + list(reversed(names))]
+    worst = 0.0
+    for seq in seqs:
+        st, val = fork_call(walk, seq, timeout=timeout)
+        ck.trans += len(seq)
+        if st != "ok":
+            ck.true(check, False, "sequence %s: %s %r" %
+                    (">".join(seq), st, val))
+            continue
+        for i, (n, got) in enumerate(zip(seq, val)):
+            if refs[n] is None:
+                continue
+            got = np.array(got, dtype=float)
+            if got.shape != refs[n].shape:
+                e = float("inf")
+            else:
+                e = float(np.abs(got - refs[n]).max() /
+                          (np.abs(refs[n]).max() or 1.0))
+            worst = max(worst, e if e != float("inf") else 0.0)
+            ck.true(check, e <= tol, "%s as step %d of %s differs by %.2e "
+                    "from %s computed first in an interpreter" %
+                    (n, i + 1, ">".join(seq), e, n))
+    ck.metric(check, worst)
+    return digest(*[np.round(refs[n], 9) for n in names
+                    if refs[n] is not None])
